@@ -595,10 +595,18 @@ def _check_read_all(run, world, mod, Q, fn, cfg, ys, sel):
            "MemoryLocationNotImplemented" % lst, where(mod, fn))
 
 
+_UP = {}
+
+
 def set_parents_local(fn):
+    """Parent map of fn's nodes (a dict, not an attribute: the context
+    nodes Load / Store are shared by every tree the parser builds, and an
+    attribute on them would be dragged into every later deep copy)."""
+    _UP.clear()
     for n in ast.walk(fn):
         for ch in ast.iter_child_nodes(n):
-            ch._up = n
+            if not isinstance(ch, ast.expr_context):
+                _UP[id(ch)] = n
 
 
 def _index_protected(sub, lst, idx):
@@ -607,8 +615,8 @@ def _index_protected(sub, lst, idx):
     guards = ("%s < len(%s)" % (idx, lst), "len(%s) > %s" % (lst, idx))
     nguards = ("%s >= len(%s)" % (idx, lst), "len(%s) <= %s" % (lst, idx))
     n = sub
-    while getattr(n, "_up", None) is not None:
-        p = n._up
+    while _UP.get(id(n)) is not None:
+        p = _UP[id(n)]
         if isinstance(p, ast.Try) and n in p.body:
             for h in p.handlers:
                 names = [unparse(t) for t in (
